@@ -20,7 +20,10 @@ import time
 
 
 def fbits(x):
-    return struct.pack(">d", float(x)).hex()
+    """IEEE bit pattern; every NaN is written "nan" (sign and payload of a NaN are not defined by IEEE 754 and
+    differ between two builds of the same code, e.g. debug module vs optimised reference)"""
+    x = float(x)
+    return "nan" if x != x else struct.pack(">d", x).hex()
 
 
 class Splitmix:
@@ -70,7 +73,7 @@ UNARY = {
     "arctan": (math.atan, lambda x: True),
     "sinh": (math.sinh, lambda x: abs(x) < 8),
     "cosh": (math.cosh, lambda x: abs(x) < 8),
-    "tanh": (math.tanh, lambda x: True),
+    "tanh": (math.tanh, lambda x: abs(x) < 300),  # num-dual's tanh is sinh/cosh: NaN beyond |x| ~ 710
     "arcsinh": (math.asinh, lambda x: True),
     "arccosh": (math.acosh, lambda x: x > 1.1),
     "arctanh": (math.atanh, lambda x: abs(x) < 0.9),
@@ -182,7 +185,7 @@ def composite_tail(rng, re, n_vars):
     r = emit_op({"op": "mul", "a": a, "b": b}, re[a] * re[b])
     if rng.below(2):
         w = emit_op({"op": "mul", "a": u, "b": v}, re[u] * re[v])
-        h = emit_op({"op": "tanh", "a": w}, math.tanh(re[w]))
+        h = emit_op({"op": "tanh" if abs(re[w]) < 300 else "arctan", "a": w}, math.tanh(re[w]) if abs(re[w]) < 300 else math.atan(re[w]))
         r = emit_op({"op": "add", "a": r, "b": h}, re[r] + re[h])
     return ops
 
@@ -341,7 +344,7 @@ def bitsify(ops, rng=None):
 # execution against the Python module
 # ----------------------------------------------------------------------------------------------
 def unbits(h):
-    return struct.unpack(">d", bytes.fromhex(h))[0]
+    return float("nan") if h == "nan" else struct.unpack(">d", bytes.fromhex(h))[0]
 
 
 def as_kind(c, kind):
